@@ -4,7 +4,6 @@
 PENDING.update({
  "C02": "check not built yet in this revision (planned: engine iosim, see DESIGN.md section 5)",
  "C03": "check not built yet in this revision (planned: engine iosim)",
- "C06": "check not built yet in this revision (planned: engine walksim)",
  "C08": "check not built yet in this revision (planned: engine procsim)",
  "C14": "check not built yet in this revision (planned: engines iosim + procsim)",
  "C15": "check not built yet in this revision (planned: engine procsim)",
@@ -18,3 +17,9 @@ check("C07", "walksim", "exploration",
   "Assumes sequential consistency (workers serialised; Acquire/Release reorderings of the two atomics not explored); crossbeam-deque executed but trusted; the idle sleep is modelled as blocking until another worker performs a state-changing step. Exhaustive enumeration up to a preemption bound (mentioned in the property's quantifier) is model checking and is outside this technique family; the thorough tier spends its budget on more seeds and PCT depths.",
   "deterministic simulation: seeded baton scheduler (random/PCT) over real threads + fault injection",
   "DESIGN.md section 5/C07, section 2/E2")
+
+check("C06", "walksim", "exploration",
+  "Seeded sampling of (tree, builder configuration, schedule): the real parallel walker runs under the baton scheduler of C07 (so the comparison is made under adversarial interleavings, threads 1..16), the real serial walker runs on the same tmpfs tree, and when no ignore/hidden rules are active an independent std::fs listing with the same depth/size/link/device/filter semantics is the third party. Trees: empty dirs, chains, fan-out, file and directory symlinks, cycles, dangling links, several/overlapping roots, file roots, symlink roots, a link to a directory on another device (disk vs tmpfs) for same_file_system. Oracles: multiset(parallel) == multiset(serial) including reported errors (loop, io); no path more often than the roots allow; both == independent listing; walk terminates (hang detector, step bound).",
+  "Same scheduler assumptions as C07. The second device is reached through a symlink (the sandbox cannot mount), so same_file_system is exercised together with follow_links only. Ignore-rule semantics themselves (C04/C05) are not judged here: with rules active only serial==parallel is demanded.",
+  "deterministic simulation: seeded schedules + seeded tree/config swarm, differential oracle (parallel vs serial vs independent listing)",
+  "DESIGN.md section 5/C06")
